@@ -10,8 +10,10 @@ Import ListNotations.
 Open Scope Z_scope.
 
 (* one observation: which runtime (0 = original, k > 0 = a copy), which
-   observation program (0 = generic; 1 = script dump of the user heap; 201 = the regression
-   witness of the repaired f.caller finding), the text it returned there, and the text it returned on
+   observation program (0 = generic; 1 = script dump of the user heap; 2 = the results of calling
+   every parameterless script function of the heap, each attributed to a runtime; 3 = one
+   feature's observations between single accessor invocations; 201 = the regression witness
+   of the repaired f.caller finding), the text it returned there, and the text it returned on
    that runtime's replica (a fresh runtime that replayed the same scripts) *)
 Definition obs := (Z * Z * list Z * list Z)%type.
 
